@@ -532,8 +532,10 @@ fn run_once_inner<T: Sc, F: Factory<T>>(sc: &Scenario, rep: &mut RunReport, samp
                     if let Some(k) = n_opt {
                         let tail = slice(&log, st.ev_from + k, st.ev_to);
                         if f.with_stats && f.ok {
+                            // Ok with statistics: they ran to completion and are the last
+                            // calls of the operation (see c12.rs)
                             let sl = stats_len(sc).min(tail.len());
-                            if failing(&tail[..sl]) {
+                            if failing(&tail[tail.len() - sl..]) {
                                 rep.violate(sc, "STATS_OK_DESPITE_FAILURE", "FitWithStatistics", format!("op {}: the model failed while the statistics were computed, yet fit_with_statistics returned Ok", st.op));
                             }
                         }
